@@ -138,6 +138,12 @@ type c01Session struct {
 	d   *rig.Duo
 	k   c01Knobs
 	gen int
+	// noOracles turns the C01 oracles off (other checks reuse the session driver).
+	noOracles bool
+	// hook runs after every step of the fault phase and the fair suffix.
+	hook func(phase string)
+	// maxSuffix bounds the fair suffix when oracles are off.
+	genStart time.Duration
 }
 
 // candidate addresses currently gathered on each side
@@ -190,6 +196,9 @@ func (s *c01Session) drawMatrix() (anyBidir bool) {
 // checkSafety: oracle (a)/(d) evaluated at every quiescent point.
 func (s *c01Session) checkSafety(anyBidir bool) {
 	d, c := s.d, s.c
+	if s.noOracles {
+		return
+	}
 	for _, ag := range []*rig.AgentH{d.A, d.B} {
 		l, r, ok := ag.SelectedPair()
 		st := ag.LastState()
@@ -317,6 +326,9 @@ func (s *c01Session) generation(gen int) {
 		}
 		s.checkSafety(anyBidir)
 		c.State(s.stateKey())
+		if s.hook != nil {
+			s.hook("fault")
+		}
 	}
 	c.Logf("fault phase over")
 
@@ -352,8 +364,11 @@ func (s *c01Session) generation(gen int) {
 		d.S.StepFair(fairStep)
 		s.checkSafety(anyBidir)
 		c.State(s.stateKey())
+		if s.hook != nil {
+			s.hook("fair")
+		}
 	}
-	if c.Failed() {
+	if c.Failed() || s.noOracles {
 		return
 	}
 	if anyBidir {
